@@ -123,41 +123,63 @@ pub struct ErrTab {
   errs: [Cell<Option<RxError>>; ERR_CAP],
 }
 unsafe impl Sync for ErrTab {}
-static ERR_TAB: ErrTab = ErrTab {
-  n: Cell::new(0),
-  ids: [Cell::new(0), Cell::new(0), Cell::new(0), Cell::new(0)],
-  errs: [Cell::new(None), Cell::new(None), Cell::new(None), Cell::new(None)],
-};
+impl ErrTab {
+  const fn new() -> ErrTab {
+    ErrTab {
+      n: Cell::new(0),
+      ids: [Cell::new(0), Cell::new(0), Cell::new(0), Cell::new(0)],
+      errs: [Cell::new(None), Cell::new(None), Cell::new(None), Cell::new(None)],
+    }
+  }
+}
+// under Kani every harness is its own program: a plain static.  In native replays all tests share one process: per-thread table.
+#[cfg(kani)]
+static ERR_TAB: ErrTab = ErrTab::new();
+#[cfg(kani)]
+fn with_tab<R>(f: impl FnOnce(&ErrTab) -> R) -> R {
+  f(&ERR_TAB)
+}
+#[cfg(not(kani))]
+thread_local! { static ERR_TAB: ErrTab = ErrTab::new(); }
+#[cfg(not(kani))]
+fn with_tab<R>(f: impl FnOnce(&ErrTab) -> R) -> R {
+  ERR_TAB.with(|t| f(t))
+}
 /// a fresh error object tagged `id`
 pub fn err(id: u8) -> RxError {
   let e = RxError::from_error(id);
-  let n = ERR_TAB.n.get();
-  assert!(n < ERR_CAP, "harness error table overflow");
-  ERR_TAB.ids[n].set(id);
-  ERR_TAB.errs[n].set(Some(e.clone()));
-  ERR_TAB.n.set(n + 1);
+  let e2 = e.clone();
+  with_tab(move |t| {
+    let n = t.n.get();
+    assert!(n < ERR_CAP, "harness error table overflow");
+    t.ids[n].set(id);
+    t.errs[n].set(Some(e2));
+    t.n.set(n + 1);
+  });
   e
 }
 /// the tag of the error object `e` was created with (0xff: not an object created by `err`)
 pub fn err_id(e: &RxError) -> u32 {
-  let n = ERR_TAB.n.get();
-  macro_rules! at {
-    ($i:expr) => {
-      if $i < n {
-        let x = ERR_TAB.errs[$i].take();
-        let same = match &x {
-          Some(r) => crate::rx_error::verif_k::same_error(r, e),
-          None => false,
-        };
-        ERR_TAB.errs[$i].set(x);
-        if same {
-          return ERR_TAB.ids[$i].get() as u32;
+  with_tab(|t| {
+    let n = t.n.get();
+    macro_rules! at {
+      ($i:expr) => {
+        if $i < n {
+          let x = t.errs[$i].take();
+          let same = match &x {
+            Some(r) => crate::rx_error::verif_k::same_error(r, e),
+            None => false,
+          };
+          t.errs[$i].set(x);
+          if same {
+            return t.ids[$i].get() as u32;
+          }
         }
-      }
-    };
-  }
-  at!(0); at!(1); at!(2); at!(3);
-  0xff
+      };
+    }
+    at!(0); at!(1); at!(2); at!(3);
+    0xff
+  })
 }
 
 /// recording subscriber: logs N/E/C
